@@ -43,6 +43,7 @@
  *     WITHIN the case (strings still referenced at ly_ctx_destroy() are a failure of that case unless it was already reported for
  *     leaving them) and re-created for the next case; every re-created context must reproduce the first baseline; at the end of
  *     the input the used context is compared with a FRESH one on the full workload (reported on stderr only).
+ *   - LY_EINT (an internal error, LOGINT) must not be reachable from input: it is a failure of its own;
  *   - an error code needs an error record; LY_ENOT / LY_ENOTFOUND / LY_EINCOMPLETE are answers (not errors) only for the searching
  *     and matching entries (xfind xeval sxfind fpath npath value pattern) and LY_ENOT for lyd_parse_op (documented).
  * Output: one line  "<entry> rc=<n> <observations> H=ok"  ; every failed post-condition is a word starting with '!'.
@@ -760,6 +761,10 @@ check_record(const struct ly_ctx *ctx, LY_ERR rc)
 {
     const struct ly_err_item *e;
 
+    if (rc == LY_EINT) {
+        /* "internal error" (LOGINT) must not be reachable from input */
+        printf("!internal-error ");
+    }
     if (!needs_record(rc)) {
         return;
     }
@@ -1168,7 +1173,7 @@ run_case(struct shard *S, struct vcase *c, int nf)
         for (i = 0; tree && (i < 3); i++) {
             s = NULL;
             r = lyd_print_mem(&s, tree, fmts[i], LYD_PRINT_WITHSIBLINGS | LYD_PRINT_WD_ALL | LYD_PRINT_KEEPEMPTYCONT);
-            printf("p%d=%d ", i, (int)r);
+            printf("p%d=%d%s ", i, (int)r, (r == LY_EINT) ? " !internal-error-print" : "");
             if (!r && s) {
                 back = NULL;
                 r = lyd_parse_data_mem(ctx, s, fmts[i], LYD_PARSE_ONLY | LYD_PARSE_OPAQ, 0, &back);
